@@ -513,8 +513,10 @@ def _index(idx, dims, tail_shape, layout=None):
             n = tail_shape[k]
             if isinstance(x, slice) and x == slice(None):
                 out.append(("tail", n, k))
-            elif isinstance(x, (int, _np.integer)) and 0 <= int(x) < n:
-                tpoints[k] = int(x)
+            elif isinstance(x, (int, _np.integer)):
+                if not -n <= int(x) < n:  # what numpy itself raises
+                    raise IndexError("index %d is out of bounds for axis with size %d" % (int(x), n))
+                tpoints[k] = int(x) % n
             else:
                 raise alg.Undecided("only ':' and an in-range integer are supported on a concrete axis (got %r)" % (x,))
         ax += 1
@@ -573,8 +575,8 @@ class GArray:
         perm = tuple(int(x) for x in perm)
         if sorted(perm) != list(range(len(self.layout))):
             raise alg.Undecided("transpose with an invalid permutation %r" % (perm,))
-        t = object.__new__(GArray)
-        t.dims, t.tail, t.tid = self.dims, self.tail, self.tid
+        t = object.__new__(type(self))
+        t.__dict__.update(self.__dict__)
         t.layout = [self.layout[a] for a in perm]
         return t
 
@@ -617,8 +619,11 @@ class GArray:
                         el[k] = Aff.of(v)
                         bounds_here = [(el[k], self.dims[k])]
                     else:
-                        if not isinstance(v, (int, _np.integer)) or not 0 <= int(v) < self.tail[k]:
+                        if not isinstance(v, (int, _np.integer)):
                             raise alg.Undecided("a concrete axis is indexed with %r" % (v,))
+                        if not -self.tail[k] <= int(v) < self.tail[k]:  # what numpy itself raises
+                            raise IndexError("index %d is out of bounds for axis with size %d" % (int(v), self.tail[k]))
+                        v = int(v) % self.tail[k]
                         tp[k] = int(v)
             if any(k not in el for k in range(len(self.dims))):
                 raise alg.Undecided("an axis of the table is left without an index")
@@ -725,9 +730,12 @@ class GSpecTable(GArray):
         real_atom = C.atom
         C.atom = lambda *a: C.named_atom(self.name, *a)
         try:
-            data, sym, _evs = self._view(idx, True)
+            data, sym, evs = self._view(idx, True)
         finally:
             C.atom = real_atom
+        # nothing has to have been written, but the indices must lie inside the callee's table: kept for the harness
+        # (contracts.unbounded.check_spec_reads)
+        C.spec_reads = getattr(C, "spec_reads", []) + [dict(e, table=self.name) for e in evs]
         return GVal(data, sym, [])
 
     def __setitem__(self, idx, val):
@@ -807,11 +815,24 @@ class GIota:
 class GNp:
     """the module's numpy: the symbolic proxy, with zeros / arange understanding symbolic extents"""
 
-    def __init__(self, proxy):
+    def __init__(self, proxy, hooks=None):
         self._p = proxy
+        self._hooks = dict(hooks or {})  # functions a contract replaces by their contract (e.g. max of an array of symbolic integers)
 
     def __getattr__(self, name):
-        return getattr(self._p, name)
+        if name in self.__dict__.get("_hooks", {}):
+            return self._hooks[name]
+        f = getattr(self._p, name)
+        if not callable(f) or isinstance(f, type):
+            return f
+
+        def guarded(*a, **k):
+            # a numpy function this fragment has no generic-element reading for: the contract is undecided, never guessed
+            if any(isinstance(x, (GVal, GArray, GIota)) for x in list(a) + list(k.values())):
+                raise alg.Undecided("np.%s applied to a generic-element value: outside the fragment" % name)
+            return f(*a, **k)
+
+        return guarded
 
     def zeros(self, shape, *a, **k):
         if isinstance(shape, tuple) and any(isinstance(s, Aff) for s in shape):
@@ -832,6 +853,32 @@ class GNp:
             out = _np.tensordot(a.data, _np.asarray(b, dtype=object), (ax_a, ax_b))
             return GVal(out, a.sym, a.reads)
         return self._p.tensordot(a, b, axes)
+
+    def _reduce(self, name, x, axis, k, unit, op):
+        if isinstance(x, GVal):
+            if axis is None or k:
+                raise alg.Undecided("np.%s of a value without an axis" % name)
+            axis = int(axis) % x.data.ndim
+            if (x.data.ndim - axis) in x.sym:
+                raise alg.Undecided("np.%s over a symbolic-length axis" % name)
+            if any(x.data.ndim - slot < axis for slot in x.sym):
+                raise alg.Undecided("np.%s over an axis right of a symbolic axis" % name)  # its position from the right would shift
+            out = _np.empty(x.data.shape[:axis] + x.data.shape[axis + 1:], dtype=object)
+            for pos in itertools.product(*[range(n) for n in out.shape]):
+                acc = S.lift(unit)
+                for j in range(x.data.shape[axis]):
+                    acc = op(acc, x.data[pos[:axis] + (j,) + pos[axis:]])
+                out[pos] = acc
+            return GVal(out, x.sym, x.reads)
+        if isinstance(x, (GArray, GIota)):
+            raise alg.Undecided("np.%s of a whole table" % name)
+        return getattr(self._p, name)(x, axis=axis, **k)
+
+    def prod(self, x, axis=None, **k):
+        return self._reduce("prod", x, axis, k, 1, lambda a, b: a * b)
+
+    def sum(self, x, axis=None, **k):
+        return self._reduce("sum", x, axis, k, 0, lambda a, b: a + b)
 
     def sqrt(self, x, *a, **k):
         if isinstance(x, GVal):
